@@ -32,6 +32,8 @@ class Cloning:
       elif isinstance(v, gfapy.OrientedLine):
         # (e.g. the external field of fragments)
         data_cpy[k] = gfapy.OrientedLine(v.name, v.orient)
+      elif isinstance(v, gfapy.LastPos):
+        data_cpy[k] = gfapy.LastPos(v.value, valid = True)
       else:
         data_cpy[k] = v
     cpy = self.__class__(data_cpy, vlevel = self.vlevel,
